@@ -562,29 +562,40 @@ def r34(ctx, R):
     g = prog.func(inf)
     me = g.params[0]
     rets = [r for r in own_nodes(g.node) if isinstance(r, ast.Return)]
-    oki = False
+    # the function as a disjunction: each return contributes (its branch
+    # literals AND its value); "a or (not a and b)" is "a or b".  Both the
+    # two-return spelling and "return X is None or p in X" give the same
+    # two disjuncts.
+    disj = []
     found = []
-    attr = None
     for r in rets:
         cs = C.conds(r, g.node, implicit=True)
-        v = src(r.value) if r.value is not None else None
-        found.append('%s under %s' % (v, [ast.unparse(e) + ('' if p else
-                                                           ' [neg]')
-                                          for e, p in cs]))
-    # shape: True when <attr> is None; else membership in <attr>
-    t_none = [r for r in rets if src(r.value) == 'True' and any(
-        pol and isinstance(e, ast.Compare) and isinstance(
-            e.ops[0], ast.Is) and src(e.comparators[0]) == 'None'
-        for e, pol in C.conds(r, g.node, implicit=True))]
-    memb = [r for r in rets if isinstance(r.value, ast.Compare)
-            and isinstance(r.value.ops[0], ast.In)
-            and src(r.value.left) == g.params[1]]
-    if len(rets) == 2 and len(t_none) == 1 and len(memb) == 1:
-        a1 = [src(e.left) for e, pol in C.conds(t_none[0], g.node,
-                                                implicit=True)
-              if isinstance(e, ast.Compare)][0]
-        a2 = src(memb[0].value.comparators[0])
-        oki = a1 == a2 and a1.startswith(me + '.')
+        lit = [(ast.unparse(e), pol) for e, pol in cs]
+        found.append('%s under %s' % (
+            src(r.value) if r.value is not None else None, lit))
+        v = r.value
+        if isinstance(v, ast.Constant) and v.value is True:
+            disj.append(list(lit))
+        elif isinstance(v, ast.Constant) and v.value in (False, None):
+            continue
+        elif v is not None:
+            alts = v.values if isinstance(v, ast.BoolOp) and isinstance(
+                v.op, ast.Or) else [v]
+            for a_ in alts:
+                disj.append(list(lit) + [(ast.unparse(x), p) for x, p in
+                                         C.lits(a_, True, [])])
+    units = {d[0] for d in disj if len(d) == 1}
+    simp = set()
+    for d in disj:
+        d2 = tuple(sorted(x for x in d if (x[0], not x[1]) not in units))
+        simp.add(d2)
+    param = g.params[1] if len(g.params) > 1 else None
+    attrs = {t for d in simp for t, _p in d}
+    oki = False
+    for x in sorted(attrs):
+        if x.endswith(' is None') and x.startswith(me + '.'):
+            X = x[:-len(' is None')]
+            oki = simp == {((x, True),), (('%s in %s' % (param, X), True),)}
     R.ob('R3.4', 'in_filtered_anchors:none-or-member', oki,
          'no anchor filter means every anchor; otherwise membership in the '
          'filtered roots', found, func=g)
